@@ -180,7 +180,7 @@ PROPS = {
     },
     "C02": {
         "units": ["ext"],
-        "bounded_checks": ["external"],
+        "bounded_checks": ["external", "applic"],
         "level": "other",
         "property_obligations": ["ValidatedExternalEquivalenceTask::decompose"],
         "carriers": ["AnnotatedFormula::into_problem_formula", "WithWarnings::preface_warnings"],
@@ -285,7 +285,7 @@ PROPS = {
     },
     "C12": {
         "units": ["strong"],
-        "bounded_checks": ["strong", "preamble"],
+        "bounded_checks": ["strong", "preamble", "external"],
         "level": "other",
         "property_obligations": ["StrongEquivalenceTask::transition_axioms", "transition", "lemma_transition_true", "lemma_transition_cover", "Predicate::to_formula",
                                  "Program::predicates", "lemma_program_preds"],
